@@ -1,2 +1,313 @@
-// harness site: src/mania/difficulty/gradual.rs
+// harness site: src/mania/difficulty/gradual.rs — S1 (state-level inductive step), DESIGN.md §4a.
+//
+// Properties: C15 (iterator protocol), C02 (gradual == one-shot on the prefix; counters and
+// processed objects), C14 (mania object / hold-note counts), C05 (no panic for any n: usize).
+//
+// One symbolic witness W = (object kinds, times, durations, clock rate, cursor p, call, n).
+//  * under Kani: the gradual struct is written as a literal in cursor state p under the
+//    representation invariant `new()` + p x next() establishes (counters = the one-shot counters
+//    of the prefix, computed by the real `ManiaObject::new`), then ONE call is made; the skill's
+//    `process` is a recording stub (ghost log of processed difficulty-object indices).
+//  * natively (replay of a counterexample): the same witness is turned into a `Beatmap`, the real
+//    `ManiaGradualDifficulty::new()` is advanced by p x next(), the same call is made with the
+//    real skill, and the same assertions plus a comparison against the real one-shot
+//    `calculate_for_mode` with `passed_objects` are evaluated — so only violations reachable
+//    through the public API reproduce.
 #![allow(dead_code, unused_imports, clippy::all, clippy::pedantic)]
+
+use super::*;
+use crate::verif_harness::common::{ghost_probe, verif_replay_table};
+use crate::{
+    mania::Mania,
+    model::hit_object::{HitObjectKind, HoldNote},
+};
+use rosu_map::util::Pos;
+
+// ---- ghost log of `Strain::process` calls -------------------------------------------------------
+static mut LOG: [usize; 8] = [0; 8];
+static mut LOG_LEN: usize = 0;
+
+fn rec_process(_s: &mut Strain, curr: &ManiaDifficultyObject, _o: &[ManiaDifficultyObject]) {
+    unsafe {
+        if LOG_LEN < 8 {
+            LOG[LOG_LEN] = curr.idx;
+        }
+        LOG_LEN += 1;
+    }
+}
+
+fn zero_value(_s: &Strain) -> f64 {
+    0.0
+}
+
+fn log_len() -> usize {
+    unsafe { LOG_LEN }
+}
+fn log_at(i: usize) -> usize {
+    unsafe { LOG[i] }
+}
+
+/// cut: slider path geometry (maps with sliders are outside this harness)
+fn cut_curve<'a>(
+    _s: &crate::model::hit_object::Slider,
+    _m: GameMode,
+    _b: &'a mut rosu_map::section::hit_objects::CurveBuffers,
+) -> rosu_map::section::hit_objects::BorrowedCurve<'a> {
+    kani::assume(false);
+    unreachable!()
+}
+
+// ---- witness --------------------------------------------------------------------------------------
+
+const START_OFFSETS: [f64; 4] = [0.0, 459.0, 462.0, 1.0];
+const DURATIONS: [f64; 4] = [100.0, 200.0, 150.0, 99.5];
+const RATES: [f64; 4] = [1.0, 1.5, 0.75, 1.2];
+
+#[derive(Clone, Copy)]
+struct Witness<const N: usize> {
+    is_circle: [bool; N],
+    start_k: [u8; N],
+    dur_k: [u8; N],
+    rate_k: u8, // 4 = no explicit clock rate
+    p: usize,
+    call: u8, // 0 next, 1 nth(n), 2 len only
+    n: usize,
+}
+
+fn any_witness<const N: usize>() -> Witness<N> {
+    let w = Witness::<N> {
+        is_circle: kani::any(),
+        start_k: kani::any(),
+        dur_k: kani::any(),
+        rate_k: kani::any(),
+        p: kani::any(),
+        call: kani::any(),
+        n: kani::any(),
+    };
+    for i in 0..N {
+        kani::assume(w.start_k[i] < 4 && w.dur_k[i] < 4);
+    }
+    kani::assume(w.rate_k <= 4 && w.p <= N && w.call < 3);
+    w
+}
+
+fn difficulty_of<const N: usize>(w: &Witness<N>) -> Difficulty {
+    if w.rate_k < 4 {
+        Difficulty::new().clock_rate(RATES[w.rate_k as usize])
+    } else {
+        Difficulty::new()
+    }
+}
+
+fn map_of<const N: usize>(w: &Witness<N>) -> Beatmap {
+    let mut map = Beatmap {
+        mode: GameMode::Mania,
+        cs: 4.0,
+        ..Beatmap::default()
+    };
+    for i in 0..N {
+        let start = (i as f64) * 1000.0 + START_OFFSETS[w.start_k[i] as usize];
+        let kind = if w.is_circle[i] {
+            HitObjectKind::Circle
+        } else {
+            HitObjectKind::Hold(HoldNote {
+                duration: DURATIONS[w.dur_k[i] as usize],
+            })
+        };
+        map.hit_objects.push(HitObject {
+            pos: Pos::new(0.0, 0.0),
+            start_time: start,
+            kind,
+        });
+        map.hit_sounds.push(Default::default());
+    }
+    map
+}
+
+/// One-shot counters of every prefix, computed with the real `ManiaObject::new` (the code
+/// `DifficultyValues::calculate` counts with): `combo[k]`, `holds[k]` after k objects.
+struct Model<const N: usize> {
+    combo: [u32; 5],
+    holds: [u32; 5],
+}
+
+fn model_and_objects<const N: usize>(map: &Beatmap) -> (Model<N>, Vec<ManiaObject>) {
+    let mut params = ObjectParams::new(map);
+    let mut m = Model::<N> {
+        combo: [0; 5],
+        holds: [0; 5],
+    };
+    let mut objs = Vec::with_capacity(N);
+    for i in 0..N {
+        objs.push(ManiaObject::new(&map.hit_objects[i], 4.0, &mut params));
+        m.combo[i + 1] = params.max_combo();
+        m.holds[i + 1] = params.n_hold_notes();
+    }
+    (m, objs)
+}
+
+// ---- the step and its post-conditions ------------------------------------------------------------
+
+/// Known-finding classes (see /verif/known_findings.json). The main harnesses skip exactly the
+/// assertion that is known to fail inside the class; the `kf_*` harnesses below restrict the
+/// witness to the class and assert everything, so the finding is re-derived on every run and any
+/// other failure — inside or outside the classes — is still reported.
+const SKIP_NTH_BEYOND: u8 = 1; // nth(n) with n >= remaining > 0 returns Some(last)
+const SKIP_COMBO_RATE: u8 = 2; // max_combo of hold notes under a clock rate != 1 (float round trip)
+
+fn check_step<const N: usize>(g: &mut ManiaGradualDifficulty, w: &Witness<N>, m: &Model<N>, map: &Beatmap, skip: u8) {
+    let p = w.p;
+    let remaining = N - p;
+    let ghost = ghost_probe();
+    let log0 = log_len();
+
+    assert!(g.len() == remaining, "C15 mania: len() equals the number of values still to come");
+    let (lo, hi) = g.size_hint();
+    assert!(lo == g.len() && hi == Some(lo), "C15 mania: size_hint() agrees with len()");
+
+    if w.call == 2 {
+        return;
+    }
+    let n = if w.call == 0 { 0 } else { w.n };
+    let res = if w.call == 0 { g.next() } else { g.nth(n) };
+
+    if n < remaining {
+        let k = p + n + 1; // number of objects the returned value accounts for
+        assert!(res.is_some(), "C15 mania: a value is produced while enough values remain");
+        let a = res.unwrap();
+        assert!(a.n_objects as usize == k, "C02 mania: n_objects is the prefix length");
+        let rate_is_one = w.rate_k == 4 || w.rate_k == 0;
+        let mut hold_in_prefix = false;
+        for i in 0..N {
+            if i < k && !w.is_circle[i] {
+                hold_in_prefix = true;
+            }
+        }
+        let combo_known_class = !rate_is_one && hold_in_prefix;
+        if !(skip & SKIP_COMBO_RATE != 0 && combo_known_class) {
+            assert!(a.max_combo == m.combo[k], "C02 mania: max_combo equals the one-shot count of the prefix");
+        }
+        assert!(a.n_hold_notes == m.holds[k], "C02 mania: n_hold_notes equals the one-shot count of the prefix");
+        assert!(g.idx == k, "C15 mania: cursor advanced by n + 1");
+        assert!(g.len() == N - k, "C15 mania: len() after the call");
+        if ghost {
+            // processed exactly the difficulty objects of objects max(p,1) ..= k-1, once, in order
+            let first = if p == 0 { 0 } else { p - 1 };
+            let expect = (k - 1) - first;
+            assert!(log_len() - log0 == expect, "C02 mania: number of processed difficulty objects");
+            let mut j = 0;
+            while j < expect {
+                assert!(log_at(log0 + j) == first + j, "C02 mania: processed objects in order");
+                j += 1;
+            }
+        } else {
+            // native replay: compare with the real one-shot calculation on the prefix
+            let one = difficulty_of(w)
+                .passed_objects(k as u32)
+                .calculate_for_mode::<Mania>(map)
+                .unwrap();
+            assert!(one.n_objects == a.n_objects, "C02 mania: n_objects equals one-shot passed_objects(i)");
+            if !(skip & SKIP_COMBO_RATE != 0 && combo_known_class) {
+                assert!(one.max_combo == a.max_combo, "C02 mania: max_combo equals one-shot passed_objects(i)");
+            }
+            assert!(one.n_hold_notes == a.n_hold_notes, "C02 mania: n_hold_notes equals one-shot passed_objects(i)");
+        }
+    } else {
+        if !(skip & SKIP_NTH_BEYOND != 0 && remaining > 0) {
+            assert!(res.is_none(), "C15 mania: nth(n) with fewer than n+1 values left returns None");
+        }
+        assert!(g.next().is_none(), "C15 mania: exhausted calculator stays exhausted");
+        assert!(g.len() == 0, "C15 mania: len() is 0 once exhausted");
+    }
+}
+
+fn s1_step<const N: usize, const M: usize>(skip: u8, class: u8) {
+    let w = any_witness::<N>();
+    restrict_to_class(&w, class);
+    let map = map_of(&w);
+    let (m, objs) = model_and_objects::<N>(&map);
+    let difficulty = difficulty_of(&w);
+
+    if ghost_probe() {
+        // ---- Kani: literal state at cursor p -----------------------------------------------------
+        let clock_rate = difficulty.get_clock_rate();
+        let mut diff = Vec::with_capacity(M);
+        for i in 0..M {
+            diff.push(ManiaDifficultyObject::new(&objs[i + 1], &objs[i], clock_rate, i));
+        }
+        let upto = if N == 0 { 0 } else { core::cmp::max(w.p, 1) };
+        let mut g = ManiaGradualDifficulty {
+            idx: w.p,
+            difficulty,
+            objects_is_circle: Box::new(w.is_circle),
+            is_convert: false,
+            strain: Strain::new(4),
+            diff_objects: diff.into_boxed_slice(),
+            note_state: NoteState {
+                curr_combo: m.combo[upto],
+                n_hold_notes: m.holds[upto],
+            },
+        };
+        check_step(&mut g, &w, &m, &map, skip);
+        let kc = class != 0; // covers are only meaningful on the whole domain
+        kani::cover!(kc || N < 2 || (w.call == 1 && w.n > 0 && w.n < N - w.p), "nth(n>0) inside the map");
+        kani::cover!(kc || (w.call == 1 && w.n >= N - w.p), "nth beyond the end");
+        kani::cover!(kc || N == 0 || (w.call == 0 && w.p < N), "next with values left");
+        kani::cover!(kc || N == 0 || (w.rate_k == 3 && !w.is_circle[N - 1]), "hold note under a custom clock rate");
+        core::mem::forget(g);
+    } else {
+        // ---- native replay through the public API -----------------------------------------------
+        let mut g = ManiaGradualDifficulty::new(difficulty, &map).unwrap();
+        for _ in 0..w.p {
+            let _ = g.next();
+        }
+        check_step(&mut g, &w, &m, &map, skip);
+    }
+    core::mem::forget((map, objs));
+}
+
+/// class 0 = whole domain; 1 = nth beyond the end; 2 = hold notes under clock rate 1.2
+fn restrict_to_class<const N: usize>(w: &Witness<N>, class: u8) {
+    match class {
+        1 => kani::assume(w.call == 1 && w.p < N && w.n >= N - w.p),
+        2 => {
+            kani::assume(w.call == 0 && w.rate_k == 3);
+            for i in 0..N {
+                kani::assume(!w.is_circle[i]);
+            }
+        }
+        _ => {}
+    }
+}
+
+macro_rules! s1_proof {
+    ($name:ident, $n:literal, $m:literal, $unwind:literal) => {
+        s1_proof!($name, $n, $m, $unwind, SKIP_NTH_BEYOND | SKIP_COMBO_RATE, 0);
+    };
+    ($name:ident, $n:literal, $m:literal, $unwind:literal, $skip:expr, $class:literal) => {
+        #[kani::proof]
+        #[kani::unwind($unwind)]
+        #[kani::stub(<Strain as StrainSkill>::process, rec_process)]
+        #[kani::stub(<Strain as StrainSkill>::cloned_difficulty_value, zero_value)]
+        #[kani::stub(crate::model::hit_object::Slider::curve, cut_curve)]
+        #[kani::stub(crate::verif_harness::common::ghost_probe, crate::verif_harness::common::ghost_probe_on)]
+        pub fn $name() {
+            s1_step::<$n, $m>($skip, $class);
+        }
+    };
+}
+
+s1_proof!(s1_mania_step_n0, 0, 0, 6);
+s1_proof!(s1_mania_step_n1, 1, 0, 6);
+s1_proof!(s1_mania_step_n2, 2, 1, 6);
+s1_proof!(s1_mania_step_n3, 3, 2, 7);
+s1_proof!(s1_mania_step_n4, 4, 3, 8);
+
+// known findings, re-derived on every run (must fail exactly the listed assertion)
+s1_proof!(kf_mania_nth_beyond_end, 2, 1, 6, 0, 1);
+s1_proof!(kf_mania_combo_clock_rate, 2, 1, 6, SKIP_NTH_BEYOND, 2);
+
+verif_replay_table!(verif_replay_mania_gradual;
+    kf_mania_nth_beyond_end, kf_mania_combo_clock_rate,
+    s1_mania_step_n0, s1_mania_step_n1, s1_mania_step_n2, s1_mania_step_n3, s1_mania_step_n4,
+);
